@@ -227,6 +227,90 @@ def run(ctx: Ctx) -> int:
             ok = (ea is not None and isinstance(ea, ast.Constant) and ea.value is False) or (via_table and djk is not None and isinstance(djk.get("ensure_ascii"), ast.Constant) and djk["ensure_ascii"].value is False)
             ctx.oblige("C01.a", ok, c, f"{name} writes non-ASCII characters literally (ensure_ascii=False): no surrogate-pair escapes the yaml loader would reject" if ok else f"{name} calls json.dumps with ensure_ascii on: a string with a character outside the BMP is written as a surrogate-pair escape that the yaml loader cannot read back", fn=fn)
 
+    # ... and the NON-finite ones: json.dumps (allow_nan defaults to True) writes Infinity / -Infinity / NaN
+    nf_sites = []
+    for name in ("json_compact_dump", "json_indented_dump"):
+        fn = ctx.func(f"_loaders_dumpers:{name}")
+        for c in [c for c in calls_in(fn) if call_name(c) == "json.dumps"]:
+            an_ = get_kwarg(c, "allow_nan") or (djk or {}).get("allow_nan")
+            if not (isinstance(an_, ast.Constant) and an_.value is False):
+                nf_sites.append((name, fn, c))
+    okk, w = LL.resolves_to("tag:yaml.org,2002:float").includes(DFA.from_regex(r"-?Infinity|NaN"))
+    ok = okk or not nf_sites
+    ctx.oblige("C01.a", ok, nf_sites[0][2] if nf_sites else None, "non-finite floats are either refused by the json dumpers (allow_nan=False) or written in a spelling the loader resolves to float" if ok else f"json.dumps writes {w!r} for a non-finite float ({', '.join(n for n, _, _ in nf_sites)}), which the yaml loader reads as a string: the json dump of an accepted float('inf') / float('nan') (--x=.inf) is rejected, or changed to text, by the parser that wrote it", fn=nf_sites[0][1] if nf_sites else None, site=None if nf_sites else "_loaders_dumpers:<module> json dumpers", construct="json non-finite floats", function=None if nf_sites else "_loaders_dumpers:<module>")
+
+    # character level: what the dumpers write RAW must come back unchanged from PyYAML's reader / scanner.
+    # (yamlmodel.CharModel: the emitter's `special_characters` test, the scanner's break characters and the reader's
+    #  NON_PRINTABLE class are read from the installed PyYAML and interpreted over representative code points)
+    cm = yamlmodel.CharModel()
+    dyk = None
+    for s_ in ld.tree.body:
+        if isinstance(s_, ast.Assign) and isinstance(s_.targets[0], ast.Name) and s_.targets[0].id == "dump_yaml_kwargs" and isinstance(s_.value, ast.Dict):
+            dyk = {const_str(k): v for k, v in zip(s_.value.keys, s_.value.values)}
+    ctx.need(dyk is not None, "_loaders_dumpers: dump_yaml_kwargs = {...}")
+    au = dyk.get("allow_unicode")
+    allow_unicode = bool(isinstance(au, ast.Constant) and au.value)
+    lossy = [ch for ch in cm.points if not cm.special(ch, allow_unicode) and not cm.survives_raw(ch)]
+    # strings the library's dumper is told to double-quote: a representer for str on the dumper class
+    gyd = ctx.func("_loaders_dumpers:get_yaml_default_dumper")
+    forced: Set[str] = set()
+    rep_site = None
+    reps_ = [c for c in calls_in(gyd) if call_leaf(c) == "add_representer" and len(c.args) == 2 and isinstance(c.args[0], ast.Name) and c.args[0].id == "str" and isinstance(c.args[1], ast.Name)]
+    for c in reps_:
+        fdef = [f for f in walk_local(gyd, include_nested=True) if isinstance(f, ast.FunctionDef) and f.name == c.args[1].id]
+        for f in fdef:
+            dparam = f.args.args[1].arg if len(f.args.args) > 1 else None
+            for rs in [x for x in ast.walk(f) if isinstance(x, ast.Call) and call_leaf(x) == "represent_scalar"]:
+                st = get_kwarg(rs, "style")
+                if isinstance(st, ast.Name):
+                    ds_ = [s2 for s2 in ast.walk(f) if isinstance(s2, ast.Assign) and isinstance(s2.targets[0], ast.Name) and s2.targets[0].id == st.id]
+                    st = ds_[0].value if len(ds_) == 1 else st
+                if isinstance(st, ast.IfExp) and isinstance(st.body, ast.Constant) and st.body.value == '"' and isinstance(st.test, ast.Call) and call_leaf(st.test) == "any" and st.test.args and isinstance(st.test.args[0], ast.GeneratorExp):
+                    ge = st.test.args[0]
+                    g0 = ge.generators[0]
+                    if isinstance(g0.iter, ast.Constant) and isinstance(g0.iter.value, str) and isinstance(ge.elt, ast.Compare) and isinstance(ge.elt.ops[0], ast.In) and isinstance(ge.elt.left, ast.Name) and ge.elt.left.id == g0.target.id and isinstance(ge.elt.comparators[0], ast.Name) and ge.elt.comparators[0].id == dparam and not g0.ifs:
+                        forced |= set(g0.iter.value)
+                        rep_site = rs
+    missing = [ch for ch in lossy if ch not in forced]
+    not_esc = [ch for ch in forced if not cm.escaped_in_double_quotes(ch, allow_unicode)]
+    ok = not missing and not not_esc
+    ctx.oblige("C01.a", ok, rep_site or gyd, f"every character PyYAML would write raw but read back changed ({[hex(ord(c)) for c in lossy]} under allow_unicode={allow_unicode}) forces the double-quoted style, where it is escaped" if ok else f"a string containing {[hex(ord(c)) for c in (missing or not_esc)]} is written raw by the yaml dumper (allow_unicode={allow_unicode}) inside single quotes, where the scanner normalises and folds line breaks: the dump of 'a\\x85b' parses back as 'a b'", fn=gyd, construct="raw yaml characters survive reading", details={"lossy": [hex(ord(c)) for c in lossy], "forced_double_quoted": sorted(hex(ord(c)) for c in forced), "breaks": sorted(hex(ord(c)) for c in cm.breaks), "non_printable": cm.non_printable_src})
+    # json text (read by the yaml loader under parser_mode=yaml): json.dumps escapes only < 0x20, '"' and '\\' when
+    # ensure_ascii is off; every other character the yaml reader rejects or folds must be escaped by the dumper
+    ea0 = (djk or {}).get("ensure_ascii")
+    raw_all = isinstance(ea0, ast.Constant) and ea0.value is False
+    import re as _re
+
+    for name in ("json_compact_dump", "json_indented_dump"):
+        fn = ctx.func(f"_loaders_dumpers:{name}")
+        jd = [c for c in calls_in(fn) if call_name(c) == "json.dumps"]
+        ctx.need(jd, f"{name}: json.dumps")
+        wrappers = [c for c in calls_in(fn) if isinstance(c.func, ast.Name) and c.args and any(x is jd[0] for x in ast.walk(c.args[0])) and ctx.repo.has_func(f"_loaders_dumpers:{c.func.id}")]
+        cls_src = None
+        for w_ in wrappers:
+            wf = ctx.func(f"_loaders_dumpers:{w_.func.id}")
+            for sc_ in [x for x in calls_in(wf) if call_leaf(x) == "sub" and isinstance(x.func, ast.Attribute) and isinstance(x.func.value, ast.Name)]:
+                rv = [s2 for s2 in ld.tree.body if isinstance(s2, ast.Assign) and isinstance(s2.targets[0], ast.Name) and s2.targets[0].id == sc_.func.value.id and isinstance(s2.value, ast.Call) and call_name(s2.value) == "re.compile" and s2.value.args and isinstance(s2.value.args[0], ast.Constant)]
+                repl = sc_.args[0] if sc_.args else None
+                if rv and isinstance(repl, ast.Lambda) and "\\\\u" in ast.unparse(repl.body) and "ord(" in ast.unparse(repl.body) and isinstance(sc_.args[1], ast.Name) and sc_.args[1].id == wf.args.args[0].arg:
+                    cls_src = rv[0].value.args[0].value
+        if not raw_all:
+            ctx.oblige("C01.a", True, jd[0], f"{name}: ensure_ascii is on, only ASCII is written raw", fn=fn, construct=f"{name} raw characters")
+            continue
+        rx = _re.compile(cls_src) if cls_src is not None else None
+        bad_ch = None
+        n_lossy = 0
+        for o in list(range(0x20, 0xD800)) + list(range(0xE000, 0x110000)):
+            ch = chr(o)
+            if ch in '"\\' or cm.survives_raw(ch):
+                continue
+            n_lossy += 1
+            if rx is None or not rx.fullmatch(ch):
+                bad_ch = ch
+                break
+        ok = bad_ch is None
+        ctx.oblige("C01.a", ok, jd[0], f"{name}: the {n_lossy} characters json.dumps writes raw and the yaml reader rejects or folds are escaped afterwards" if ok else f"{name} writes U+{ord(bad_ch):04X} raw (ensure_ascii=False) but the yaml loader, which reads json text under parser_mode=yaml, rejects or folds it: the json dump of the accepted string '\\x7f' is answered with 'unacceptable character', '\\x85' comes back as ' '", fn=fn, construct=f"{name} raw characters")
+
     # the yaml classes are the SAFE ones: an unsafe dumper writes `!!python/...` tags (tuples, enums, arbitrary
     # objects) that the safe loader rejects - a dump / save that succeeds and cannot be read back
     for fname in ("get_yaml_default_dumper", "get_yaml_default_loader"):
